@@ -48,7 +48,7 @@ func Generic(p *Program, x *Exec) *Verdict {
 		return &Verdict{"livelock", "no call blocks forever", fmt.Sprintf("no quiescence within %d steps", r.Steps)}
 	}
 	if r.Deadlock {
-		return &Verdict{"deadlock", "no call blocks forever", fmt.Sprintf("harness threads never finished; blocked: %v", r.Blocked)}
+		return &Verdict{"deadlock", "no call blocks forever", fmt.Sprintf("harness threads never finished; blocked: %v\n%s", r.Blocked, strings.Join(r.BlockedStacks, "\n"))}
 	}
 	return nil
 }
@@ -182,6 +182,7 @@ func RunProgram(c *fw.Ctx, p *Program) bool {
 		c.R.Programs++
 	}
 	c.Count("hb_pruned_subtrees", st.Pruned)
+	c.Count("hb_states_expanded", st.SeenStates)
 	if len(c.R.Info) < 400 {
 		c.R.Info["execs:"+p.Name] = st.Execs
 	}
